@@ -787,7 +787,8 @@ class _Exporter:
         self._name_remappings.append({})
         for node in funproto.node:
             add_line(self._translate_node(node, opsets, indent=1))
-        return_values = ", ".join(self._translate_onnx_var(x) for x in funproto.output)
+        # An output may be a constant that was inlined (inline_const)
+        return_values = ", ".join(self._translate_onnx_var_ref(x) for x in funproto.output)
         add_line(f"    return {return_values}")
         self._name_remappings.pop()
         default_opset = self._default_opset_argument(opsets, "\n".join(result))
@@ -834,7 +835,8 @@ class _Exporter:
         # The body is translated first: it decides the python names of the variables,
         # which the signature has to use as well.
         body = self._translate_graph_body(graph, opsets, indent=indent_level)
-        return_values = ", ".join(self._translate_onnx_var(x) for x in graph.output)
+        # An output may be a constant that was inlined (inline_const)
+        return_values = ", ".join(self._translate_onnx_var_ref(x.name) for x in graph.output)
         signature = _translate_signature(graph.input, graph.output, self._translate_onnx_var)
         self._name_remappings.pop()
         add(f"{indent}@script({self._default_opset_argument(opsets, body)})")
